@@ -265,7 +265,7 @@ impl<'a> RawGen<'a> {
             6 => self.unit_line(r, dec),
             7 => self.base_line(r),
             8 => self.unix_line(r),
-            9 => format!("{} = {}", self.name(r), self.any_value(r, lang, dec)),
+            9 => if r.chance(1, 4) { let n = self.name(r); format!("{} = {} {} {}", n, n, r.pick(&["+", "*", "-"]), self.number(r, dec)) } else { format!("{} = {}", self.name(r), self.any_value(r, lang, dec)) },
             10 => format!("{} {} {}", self.name(r), r.pick(&["+", "-", "*", "/", "to", "add", "times"]), self.any_value(r, lang, dec)),
             _ => self.arith(r, dec),
         }
